@@ -163,6 +163,37 @@ def ann_ty(a):
     raise Unsupported(f"parameter annotation {ast.dump(a)[:80]}")
 
 
+def entry_ctor(module):
+    """`PriEntry.__init__(self, a, b, c)` must be `self.<field> = <parameter>` for exactly the three
+    modelled fields; -> the field initialised by each positional parameter"""
+    cls = next((n for n in module.body if isinstance(n, ast.ClassDef) and n.name == "PriEntry"), None)
+    if cls is None:
+        raise Unsupported("class PriEntry not found")
+    init = next((n for n in cls.body if isinstance(n, ast.FunctionDef) and n.name == "__init__"), None)
+    if init is None:
+        raise Unsupported("PriEntry.__init__ not found")
+    a = init.args
+    if a.vararg or a.kwarg or a.kwonlyargs or a.posonlyargs or a.defaults or init.decorator_list:
+        raise Unsupported("PriEntry.__init__: parameter kinds")
+    me = a.args[0].arg
+    params = [p.arg for p in a.args[1:]]
+    field_of = {}
+    for st in body_no_doc(init):
+        if not (isinstance(st, ast.Assign) and len(st.targets) == 1 and isinstance(st.targets[0], ast.Attribute)
+                and isinstance(st.targets[0].value, ast.Name) and st.targets[0].value.id == me
+                and isinstance(st.value, ast.Name) and st.value.id in params
+                and st.targets[0].attr in ENTRY_FIELDS and st.value.id not in field_of
+                and st.targets[0].attr not in field_of.values()):
+            raise Unsupported(f"PriEntry.__init__: {ast.unparse(st)[:60]}")
+        field_of[st.value.id] = st.targets[0].attr
+    if set(field_of.values()) != set(ENTRY_FIELDS) or set(field_of) != set(params):
+        raise Unsupported("PriEntry.__init__ does not initialise exactly priority, sequence, obj")
+    for n in cls.body:
+        if isinstance(n, ast.FunctionDef) and n.name in ("__setattr__", "__getattr__", "__getattribute__", "__eq__"):
+            raise Unsupported(f"PriEntry defines {n.name}")
+    return [field_of[p] for p in params]
+
+
 class Val:
     """a translated Python value.  Entries carry ownership (`fresh` constructed here, `moved` taken
     out of a list, `borrowed` still referenced from a list) and, when they name an element of a
@@ -237,8 +268,8 @@ _PURE = Leaf("<pure>")
 class Fn:
     """translation of one method"""
 
-    def __init__(self, cls, fn, helpers):
-        self.cls, self.fn, self.helpers = cls, fn, helpers
+    def __init__(self, cls, fn, helpers, module=None):
+        self.cls, self.fn, self.helpers, self.module = cls, fn, helpers, module
         self.n = 0
         self.finals = []
         self.depth = 0            # nesting depth of forLoop bodies
@@ -438,8 +469,11 @@ class Fn:
             return self.ev_list([e.left, e.right], env, lambda vs, env2: k(self.binop(e, vs[0], vs[1]), env2))
         if isinstance(e, ast.BoolOp):
             vs = [self.pure(x, env) for x in e.values]
+            if any(v.ty != "bool" for v in vs):
+                # `a or b` is one of its operands, not a truth value
+                raise Unsupported("and / or of operands that are not booleans")
             op = " && " if isinstance(e.op, ast.And) else " || "
-            return k(Val("(" + op.join(atom(self.truth(v)) for v in vs) + ")", "bool"), env)
+            return k(Val("(" + op.join(atom(v.lean) for v in vs) + ")", "bool"), env)
         if isinstance(e, ast.Compare):
             if len(e.ops) == 1:
                 return self.ev_list([e.left, e.comparators[0]], env,
@@ -584,12 +618,19 @@ class Fn:
                     raise Unsupported("list() of a non-list")
                 return k(v.clone(), env2)
             return self.ev(e.args[0], env, k3)
-        if isinstance(f, ast.Name) and f.id == "PriEntry" and len(e.args) == 3:
+        if isinstance(f, ast.Name) and f.id == "PriEntry" and f.id not in env.vars:
+            ctor = entry_ctor(self.module)       # which field each positional parameter initialises
+            if len(e.args) != len(ctor):
+                raise Unsupported(f"PriEntry() with {len(e.args)} arguments")
+
             def k4(vs, env2):
-                want = ["prio", "nat", "obj"]
-                if [v.ty for v in vs] != want:
-                    raise Unsupported(f"PriEntry({', '.join(str(v.ty) for v in vs)})")
-                return k(Val(f"(⟨{vs[0].lean}, {vs[1].lean}, {vs[2].lean}⟩ : Entry π)", "entry", own="fresh"), env2)
+                parts = []
+                for v, attr in zip(vs, ctor):
+                    lf, ty = ENTRY_FIELDS[attr]
+                    if v.ty != ty:
+                        raise Unsupported(f"PriEntry(…): {attr} := a {v.ty}")
+                    parts.append(f"{lf} := {v.lean}")
+                return k(Val("({ " + ", ".join(parts) + " } : Entry π)", "entry", own="fresh"), env2)
             return self.ev_list(e.args, env, k4)
         if isinstance(f, ast.Name) and f.id in env.vars and isinstance(env.vars[f.id].ty, tuple) \
                 and env.vars[f.id].ty[0] == "fn":
@@ -1570,8 +1611,6 @@ LEAN_NAMES = {"__init__": "init", "__len__": "len", "__bool__": "bool"}
 # methods GenEqPQ.lean has an equality for: they must exist (anything else that translates is emitted too)
 REQUIRED = ["__init__", "__len__", "__bool__", "add", "pop", "popitem", "peek", "peekitem", "extend", "remove",
             "find", "reschedule", "refresh", "sort", "sorted", "clear", "copy", "ordereditems"]
-# iteration protocols that are not modelled as methods (plain generators over the list)
-SKIP = {"__iter__", "items", "ordered"}
 
 
 def stub(lean_name, what, msg):
@@ -1580,10 +1619,40 @@ def stub(lean_name, what, msg):
             f"def {lean_name} : Unit := (\"pq2lean cannot translate {m}\" : String)")
 
 
-def make_fn(cls, fn, helpers):
+def make_fn(cls, fn, helpers, module):
     if any(isinstance(n, (ast.Yield, ast.YieldFrom)) for n in ast.walk(fn)):
-        return GenFn(cls, fn, helpers)
-    return Fn(cls, fn, helpers)
+        return GenFn(cls, fn, helpers, module)
+    return Fn(cls, fn, helpers, module)
+
+
+def read_only(m, translated):
+    """a method the translator cannot express but that provably leaves every queue alone: no store
+    to an attribute or subscript, no method call on a list of the object or through heapq, no
+    call of a method of the class that was not itself translated (plain iteration protocols)"""
+    me = m.args.args[0].arg if m.args.args else None
+    for n in ast.walk(m):
+        if isinstance(n, (ast.Attribute, ast.Subscript)) and isinstance(n.ctx, (ast.Store, ast.Del)):
+            return False
+        if isinstance(n, (ast.Global, ast.Nonlocal, ast.Lambda, ast.Await)):
+            return False
+        if isinstance(n, ast.Call) and isinstance(n.func, ast.Attribute):
+            recv = n.func.value
+            if isinstance(recv, ast.Name) and recv.id == "heapq":
+                return False
+            if isinstance(recv, ast.Attribute):                 # self._pq.<method>()
+                return False
+            if isinstance(recv, ast.Name) and recv.id == me and n.func.attr not in translated:
+                return False
+        if isinstance(n, ast.Call) and isinstance(n.func, ast.Name) and n.func.id in ("setattr", "delattr", "exec", "eval"):
+            return False
+        # a list of the object handed to anything but len/bool/iteration could be changed there
+        if isinstance(n, ast.Call) and not (isinstance(n.func, ast.Name) and n.func.id in
+                                            ("len", "bool", "iter", "reversed", "enumerate", "list", "tuple", "sorted")):
+            for arg in list(n.args) + [k.value for k in n.keywords]:
+                if any(isinstance(x, ast.Attribute) and isinstance(x.value, ast.Name) and x.value.id == me
+                       for x in ast.walk(arg)):
+                    return False
+    return True
 
 
 def generate(src: Path) -> dict:
@@ -1607,6 +1676,13 @@ def generate(src: Path) -> dict:
         for n in cls.body:
             if isinstance(n, (ast.AsyncFunctionDef, ast.ClassDef)):
                 problems.append(f"nested {type(n).__name__} {n.name}")
+        for b in cls.bases:
+            if not (isinstance(b, ast.Subscript) and isinstance(b.value, ast.Name) and b.value.id == "Generic"):
+                problems.append(f"base class {ast.unparse(b)[:40]} (inherited methods are not translated)")
+        if cls.decorator_list or cls.keywords:
+            problems.append("class decorators / metaclass")
+        if any(p.startswith(("nested", "base class", "class decorators")) for p in problems):
+            out.append(stub("classShape", "class PriorityQueue", "; ".join(problems)))
     # translate in dependency order: a method that calls self.m() needs m first
     names = [m.name for m in methods]
     helpers = {}
@@ -1643,13 +1719,15 @@ def generate(src: Path) -> dict:
         visit(m)
     for m in order:
         lean_name = LEAN_NAMES.get(m.name, m.name)
-        if m.name in SKIP:
-            continue
         try:
-            f = make_fn(cls, m, helpers)
+            f = make_fn(cls, m, helpers, tree)
             texts[m.name] = f.method_text(lean_name)
             helpers[m.name] = f.info
         except Unsupported as e:
+            if m.name not in REQUIRED and read_only(m, set(helpers)):
+                texts[m.name] = (f"-- `{cls.name}.{m.name}` (src/asynkit/tools.py:{m.lineno}) is not translated ({e});\n"
+                                 f"-- it stores nothing itself and calls only translated methods of the class")
+                continue
             if strict:
                 raise Unsupported(f"PriorityQueue.{m.name}: {e}")
             problems.append(f"PriorityQueue.{m.name}: {e}")
